@@ -30,6 +30,11 @@ let () =
       let r = compress_HC_fastReset_mid !cur (mem_of_list (z 0) src) (len src) (zs cap) in
       cur := r.hr_ctx; show r
     | _ -> "badargs");
+  (* midfrn <n> <cap> : the same with an invalid size n (negative or above LZ4_MAX_INPUT_SIZE): nothing is read *)
+  reg "midfrn" (function [n; cap] ->
+      let r = compress_HC_fastReset_mid !cur (mem_of_list (z 0) []) (zs n) (zs cap) in
+      cur := r.hr_ctx; show r
+    | _ -> "badargs");
   (* midds <src> <target> : LZ4_compress_HC_destSize(level 2); the session context becomes the resulting one *)
   reg "midds" (function [src; target] ->
       let src = bytes_of_hex src in
